@@ -59,13 +59,18 @@ def run_cmd(cmd, cwd=None, timeout=3600, env=None):
 
 
 def lean_files_for(prop):
-    """Lean sources whose content the audit greps: all models, lemmas, the property file."""
-    files = []
-    for root, _, names in os.walk(os.path.join(LEAN, 'KatdalModel')):
-        for nm in names:
-            if nm.endswith('.lean'):
-                files.append(os.path.join(root, nm))
-    return sorted(files)
+    """Lean sources the audit greps: the property file and everything it (transitively) imports
+    from this project, plus the property's driver."""
+    seen, todo = set(), [f'KatdalModel.Props.{prop}', f'Driver.{prop}']
+    while todo:
+        mod = todo.pop()
+        path = os.path.join(LEAN, *mod.split('.')) + '.lean'
+        if mod in seen or not os.path.exists(path):
+            continue
+        seen.add(mod)
+        for m in re.finditer(r'^\s*import\s+((?:KatdalModel|Driver)\.[A-Za-z0-9_.]+)', open(path).read(), re.M):
+            todo.append(m.group(1))
+    return sorted(os.path.join(LEAN, *m.split('.')) + '.lean' for m in seen)
 
 
 def theorem_names(prop):
